@@ -57,7 +57,7 @@ func c11Compare(what string, fp int, ferr error, p int) error {
 // (buffer nil / fresh / used). Where the reference says the first value is well-formed
 // within the depth limit, the common offset is also the reference's.
 func CheckC11(c *core.Case) error {
-	in := []byte(c.In)
+	in := inputOf(c)
 	p, err := rjson.SkipValue(in, nil)
 	if err != nil {
 		// malformed for SkipValue: SkipValueFast may accept or reject; only totality (C10).
@@ -73,8 +73,18 @@ func CheckC11(c *core.Case) error {
 		return e
 	}
 	b := replayBuffer(c)
-	for _, s := range c.Steps {
-		rjson.SkipValueFast(s.In, b)
+	if isFreshHistory(c) {
+		// the generators reuse one scratch slice for consecutive inputs (same first byte, new
+		// contents): replay the epoch the same way, every document written over the previous one
+		in = aliasInto(historyArena(c), in)
+		for _, s := range c.Steps {
+			rjson.SkipValueFast(aliasInto(historyArena(c), s.In), b)
+		}
+		in = aliasInto(historyArena(c), c.In)
+	} else {
+		for _, s := range c.Steps {
+			rjson.SkipValueFast(s.In, b)
+		}
 	}
 	fp, ferr = rjson.SkipValueFast(in, b)
 	return c11Compare("used buffer", fp, ferr, p)
@@ -82,20 +92,22 @@ func CheckC11(c *core.Case) error {
 
 type c11State struct {
 	r    *core.Rec
-	used rjson.Buffer
+	used *rjson.Buffer
 	hist history
 	prim *rjson.Buffer
 }
 
 func (s *c11State) input(kind string, in []byte) error {
+	if s.used == nil {
+		s.used = s.hist.next()
+	}
 	p, err := rjson.SkipValue(in, nil)
 	if err != nil {
 		// outside the property's domain; still exercised (must return), not counted as non-trivial
-		rjson.SkipValueFast(in, &s.used)
+		rjson.SkipValueFast(in, s.used)
 		s.hist.add(in)
 		if s.hist.full() {
-			s.used = rjson.Buffer{}
-			s.hist.reset()
+			s.used = s.hist.next()
 		}
 		s.r.EvalN(1)
 		s.r.Label("domain.skipvalue-fails")
@@ -112,18 +124,13 @@ func (s *c11State) input(kind string, in []byte) error {
 	if e := c11Compare("nil", fp, ferr, p); e != nil {
 		return e
 	}
-	fp, ferr = rjson.SkipValueFast(in, s.prim)
-	if e := c11Compare("primed buffer", fp, ferr, p); e != nil {
-		return e
-	}
-	fp, ferr = rjson.SkipValueFast(in, &s.used)
+	fp, ferr = rjson.SkipValueFast(in, s.used)
 	if e := c11Compare("long-lived buffer", fp, ferr, p); e != nil {
-		return &caseErr{&core.Case{Prop: "C11", Kind: kind, In: append([]byte(nil), in...), Steps: s.hist.steps("C11"), Strs: []string{freshHistory}}, e}
+		return &caseErr{&core.Case{Prop: "C11", Kind: kind, In: append([]byte(nil), in...), Steps: s.hist.steps("C11"), Strs: s.hist.marker()}, e}
 	}
 	s.hist.add(in)
 	if s.hist.full() {
-		s.used = rjson.Buffer{}
-		s.hist.reset()
+		s.used = s.hist.next()
 	}
 	return nil
 }
